@@ -137,6 +137,13 @@ pub fn deep_programs() -> Vec<Program> {
         let root = StructDecl::new(Trait::FromMeta, vec![Field::new("gamma_x", Ty::U32), fa]);
         out.push(Program { decls: vec![Decl::Struct(root), Decl::Struct(mid), Decl::Struct(leaf)], root: 0, family: "deep flatten-chain".into() });
     }
+    // the same name at adjacent path levels: x(x(x = ..)) and a map key equal to the member name
+    {
+        let leaf = StructDecl::new(Trait::FromMeta, vec![Field::new("alpha_beta", Ty::U32), Field::new("y", Ty::OptU32)]);
+        let mid = StructDecl::new(Trait::FromMeta, vec![Field::new("alpha_beta", Ty::Struct(2)), Field::new("m", Ty::OptU32)]);
+        let root = StructDecl::new(Trait::FromMeta, vec![Field::new("alpha_beta", Ty::Struct(1)), Field::new("gamma_x", Ty::OptU32)]);
+        out.push(Program { decls: vec![Decl::Struct(root), Decl::Struct(mid), Decl::Struct(leaf)], root: 0, family: "deep same-name".into() });
+    }
     // flatten into a map, next to a nested struct with an enum inside
     {
         let mut fm = Field::new("alpha_beta", Ty::MapU32);
@@ -245,7 +252,7 @@ pub fn field_items(prog: &Program, s: &StructDecl, f: &Field) -> Vec<Item> {
     }
     match &f.ty {
         Ty::U32 | Ty::OptU32 => {
-            let mut v = vec![Item::nv(&name, "5"), Item::nv(&name, "\"7\""), Item::nv(&name, "\"x\""), Item::word(&name)];
+            let mut v = vec![Item::nv(&name, "5"), Item::nv(&name, "\"7\""), Item::nv(&name, "\"x\""), Item::word(&name), Item::nv(&name, "-1")];
             if f.tr == Tr::AndThen {
                 v[1] = Item::nv(&name, "13");
             }
@@ -269,6 +276,7 @@ pub fn field_items(prog: &Program, s: &StructDecl, f: &Field) -> Vec<Item> {
                     if let Ty::Struct(g) = &cf.ty {
                         let gn = child.eff_name(cf);
                         for it in nested_menu(&gn, prog.st(*g)).into_iter().take(5) {
+                            v.push(Item::list(&name, vec![it.clone()]));
                             v.push(Item::list(&name, vec![Item::nv(&m, "1"), it.clone()]));
                             v.push(Item::list(&name, vec![it, Item::nv("zz", "0")]));
                         }
@@ -290,6 +298,7 @@ pub fn field_items(prog: &Program, s: &StructDecl, f: &Field) -> Vec<Item> {
                 Item::list(&name, vec![]),
                 Item::list(&name, vec![Item::nv(&vn[1], "\"x\"")]),
                 Item::word(&name),
+                Item::list(&name, vec![Item::nv(&vn[0], "3")]),
             ]
         }
         Ty::MapU32 => vec![
@@ -473,7 +482,7 @@ pub fn enum_list_alphabet(prog: &Program) -> Vec<Item> {
 pub fn attr_corpus(thorough: bool) -> Vec<Program> {
     let mut out = vec![];
     let name_sets: Vec<Vec<&str>> = vec![vec!["a"], vec!["a", "b"], vec!["a", "b", "c::d"]];
-    let fwds: Vec<Fwd> = vec![Fwd::Absent, Fwd::All, Fwd::Only(vec!["doc".into(), "allow".into()]), Fwd::Only(vec![])];
+    let fwds: Vec<Fwd> = vec![Fwd::Absent, Fwd::All, Fwd::Only(vec!["doc".into(), "allow".into()]), Fwd::Only(vec![]), Fwd::Only(vec!["doc".into(), "a::a".into(), "b".into()])];
     for t in [Trait::FromDeriveInput, Trait::FromField, Trait::FromVariant, Trait::FromTypeParam, Trait::FromAttributes] {
         for (ni, names) in name_sets.iter().enumerate() {
             for (fi, fwd) in fwds.iter().enumerate() {
